@@ -332,7 +332,8 @@ var c13HistCalls = func() []string {
 	for _, T := range c13Targets {
 		out = append(out, "convertsTo"+T+"()")
 	}
-	for _, u := range []string{"'mg'", "'days'", "'hours'", "'years'", "'1'", "'wk'"} {
+	// the capitalised spellings come first: whether a unit argument is accepted must not depend on the texts converted before
+	for _, u := range []string{"'Days'", "'HOURS'", "'mg'", "'days'", "'hours'", "'years'", "'1'", "'wk'"} {
 		out = append(out, "toQuantity("+u+")", "convertsToQuantity("+u+")")
 	}
 	return out
@@ -357,7 +358,7 @@ func c13HistReceivers(items []c13Item) []c13Item {
 		seen[k] = true
 		out = append(out, it)
 	}
-	for _, s := range []string{"3 days", "48 hours", "1 week", "2 'wk'", "5 'mg'", "1 year", "36 months", "90 minutes", "1.5 hours", "7", "7.0", "true", "2020-01-15", "10:30"} {
+	for _, s := range []string{"3 days", "48 hours", "1 week", "2 'wk'", "5 'mg'", "1 year", "36 months", "90 minutes", "1.5 hours", "7", "7.0", "true", "2020-01-15", "10:30", "3 Days", "2 HOURS", "1 Year", "72 hours"} {
 		out = append(out, c13Item{id: fmt.Sprintf("h%q", s), v: system.String(s), kind: "String", class: "str.hist." + c13StrClass(s), str: s})
 	}
 	for _, q := range [][2]string{{"3", "days"}, {"48", "hours"}, {"1", "week"}, {"2", "wk"}, {"5", "mg"}} {
